@@ -328,6 +328,9 @@ func (f *file) Stat() (hackpadfs.FileInfo, error) {
 	if err := f.closedErr("stat"); err != nil {
 		return nil, err
 	}
+	if f.Mode().IsRegular() {
+		_, _ = f.Data() // report the current size rather than the one cached when the file was opened
+	}
 	return fileInfo{Record: &f.runOnceFileRecord, Path: f.path}, nil
 }
 
